@@ -81,6 +81,9 @@ func (e *Env) createBody(op Op, q url.Values) map[string]any {
 	body := map[string]any{}
 	mode := apiMode(op)
 	switch {
+	case op.VarD != "":
+		// the destination of the last posting travels as an account variable (possibly malformed): same request on every API
+		body["script"] = map[string]any{"plain": e.RenderScriptVarD(op.Ps) + RenderScriptMeta(op), "vars": map[string]any{"d": op.VarD}}
 	case strings.HasPrefix(mode, "vars-"):
 		plain, vars := e.renderVarsScript(op.Ps, mode)
 		plain += RenderScriptMeta(op)
